@@ -29,18 +29,17 @@ MANIFEST = dict(
           "rm(0) = b^2/a, rm(+-90) = a^2/b, rm monotone in |phi|; linear_velocity = omega * rp; height adds (h/a)(cos phi, sin phi); "
           "distance is symmetric, (0, 0) for coincident points, a*|dlambda| along the equator for |dlambda| < 180 "
           "(the Andoyer correction terms vanish there); antipodal points: the model (exact reals) divides by zero; "
-          "parallax_correction: (alpha', delta') -> (alpha, delta) as distance -> infinity for |delta| < 90 (Filter.Tendsto), "
-          "and two counterexample theorems: declination in (-180,-90) for a body at the pole, topocentric ecliptic latitude in "
-          "(90,180) for every southern latitude at lambda = 0 (the two parallax findings hold of the real-number model too). "
+          "parallax_correction and parallax_ecliptical (as repaired by f8a396f, ea54de3): declination / latitude in [-90, 90], "
+          "longitude in [0, 360), and for EVERY input with the body outside the Earth the angular displacement p satisfies "
+          "cos p >= sqrt(1 - s^2), p <= asin s with s = rho sin 8.794''/distance (vector geometry + Cauchy-Schwarz); "
+          "(alpha', delta') -> (alpha, delta) as distance -> infinity for |delta| < 90 (Filter.Tendsto). "
           "The model is tied to /repo by running its binary64 instantiation against the real code bit for bit. "
           "Numerical only (no theorem, (S)+(I)): distance vs the meridian-arc integral (1e-4), distance vs great circle "
-          "(0.6 %, sphere of mean radius, f <= 0.0034), the parallax bound asin(rho sin 8.794''/distance) for both parallax "
-          "functions, the decay for parallax_ecliptical."),
+          "(0.6 %, sphere of mean radius, f <= 0.0034)."),
     note=("Trusted: Lean kernel, Mathlib, axioms propext/Classical.choice/Quot.sound; the hand-written model "
           "(lean/templates/Ellipsoid.lean, Kepler.lean for the Angle helpers) and its bit-exact correspondence run; the "
-          "idealisation binary64 -> reals; the Simpson quadrature and the vector formula used as oracles. Known findings: "
-          "parallax_ecliptical returns 180-|beta| for southern ecliptic latitudes in the hemisphere cos(lambda) > 0; "
-          "Andoyer's first-order formula misses the 1e-4 meridian clause for f in (0.0099, 0.01]."),
+          "idealisation binary64 -> reals; the Simpson quadrature and the vector formula used as oracles. Known finding: "
+          "Andoyer's first-order formula misses the 1e-4 meridian clause for f in (0.0099, 0.01] (error f^2/(1-f)^2)."),
     technique="Lean 4 proof over the reals (trigonometric identities, arctan, monotonicity) + model/implementation correspondence check",
     ref='6 C18')
 
@@ -266,11 +265,12 @@ def p_parallax_equatorial(inp):
     sep_far = math.degrees(angle_between(u, unit(r3._deg, d3._deg)))
     bound = parallax_bound_deg(dist, h)
     ok = sep <= bound * (1 + 1e-9) + ABS_TOL_DEG and sep_far <= bound / 999.0 + ABS_TOL_DEG
-    return ok, {'shift_deg': sep, 'bound_deg': bound, 'shift_at_1000x': sep_far}
+    ok = ok and -90.0 <= d2._deg <= 90.0 and -90.0 <= d3._deg <= 90.0          # a declination
+    return ok, {'dec': d2._deg, 'shift_deg': sep, 'bound_deg': bound, 'shift_at_1000x': sep_far}
 
 
 def ecl_flag(lon, lat, obs_lat, obl, sid, dist, h):
-    """Regions of the known findings, from the vector oracle, at the two distances the predicate evaluates
+    """Input classes (regions of the defects repaired by ea54de3), from the vector oracle, at the two distances the predicate evaluates
     (bit mask): 2 = topocentric longitude within 0.006 degree of 90/270 (the latitude formula is 0/0 there and
     amplifies the rounding of cos(lon')); 1 = topocentric latitude < 0 and cos(topocentric longitude) > 0."""
     fl = 0
@@ -285,7 +285,7 @@ def ecl_flag(lon, lat, obs_lat, obl, sid, dist, h):
 
 
 def polar_cap_flag(dec, dist, h):
-    """1 when the body is within the horizontal parallax of a celestial pole (region of a known finding)."""
+    """1 when the body is within the horizontal parallax of a celestial pole (region of the defect repaired by f8a396f; input class)."""
     return 1 if 90.0 - abs(dec) <= parallax_bound_deg(dist, h) * 1.001 + 1e-9 else 0
 
 
@@ -305,6 +305,7 @@ def p_parallax_ecliptical(inp):
     sep_far = math.degrees(angle_between(u, unit(r3[0]._deg, r3[1]._deg)))
     bound = parallax_bound_deg(dist, h)
     ok = sep <= bound * (1 + 1e-9) + ABS_TOL_DEG and sep_far <= bound / 999.0 + ABS_TOL_DEG
+    ok = ok and -90.0 <= r[1]._deg <= 90.0 and 0.0 <= r[0]._deg < 360.0         # a latitude, a longitude
     return ok, {'topo': [r[0]._deg, r[1]._deg, r[2]._deg], 'shift_deg': sep, 'bound_deg': bound,
                 'shift_at_1000x': sep_far, 'vector_oracle': topo_ecliptic_oracle(lon, lat, obs_lat, obl, sid, dist, h)}
 
@@ -325,14 +326,11 @@ def pred(ctx, name, inp, klass=None):
 
 
 # ------------------------------------------------------------------ generators
-def budget(ctx, key, n):
-    """The runner keeps the first 500 failures of a shard.  Inputs in the region of a LISTED finding fail by the
-    hundred; to keep new failures visible only the first n such inputs per shard are evaluated, the others are counted."""
-    b = ctx.__dict__.setdefault('_budget', {})
-    b[key] = b.get(key, 0) + 1
-    if b[key] == n + 1:
-        ctx.notes.append('known-finding region %s: only the first %d inputs of each shard are evaluated' % (key, n))
-    return b[key] <= n
+def size(ctx, quick, thorough):
+    """Number of samples: the tier's size; when the source of a modelled function changed (ctx.scale > 1) at least
+    the thorough size (the most exhaustive enumeration this module has; it fits in about two minutes)."""
+    n = ctx.n(quick, thorough)
+    return max(n, thorough) if ctx.scale > 1 else n
 
 
 def gen_ell(rng):
@@ -446,10 +444,10 @@ def generate(ctx, shard=0, nshards=1):
         pe_tie(181.77703, 2.12197, 0.2781, 50.0, 23.44, 209.77, 0.0024650163, 0.0, 'meeus_example')
         ctx.sample({'call': 'Earth().distance(2.3372, 48.8364, -77.0656, 38.9214)', 'expected': '6181628 m (Meeus ex. 11.c: 6181.63 km)'})
         ctx.sample({'call': 'Earth.parallax_ecliptical(Angle(10), Angle(-10), Angle(0.25), Angle(40), Angle(23.44), Angle(100), 1.0)',
-                    'expected': 'topo_lat about -10 (known finding: 169.999 is returned)'})
+                    'expected': 'topo_lat -10.0007 (169.999 before ea54de3)'})
 
     # ---- ellipsoid quantities
-    for _ in range(ctx.n(14000, 300000) // nshards + 1):
+    for _ in range(size(ctx, 14000, 300000) // nshards + 1):
         a, f, om, name = gen_ell(rng)
         e = earth_of(a, f, om)
         lat = gen_lat(rng, hot)
@@ -471,7 +469,7 @@ def generate(ctx, shard=0, nshards=1):
         pred(ctx, 'height_term', [a, f, om, lat, h], 'height_term' + kl)
 
     # ---- surface distance
-    for _ in range(ctx.n(14000, 300000) // nshards + 1):
+    for _ in range(size(ctx, 14000, 300000) // nshards + 1):
         a, f, om, name = gen_ell(rng)
         ell = (a, f, om)
         l1, p1 = gen_lon(rng), gen_lat(rng, hot)
@@ -506,13 +504,13 @@ def generate(ctx, shard=0, nshards=1):
             pred(ctx, 'distance_coincident_zero', [a, f, om, l1, p1, l2, p2], 'distance_coincident_zero/' + k)
         if k == 'equatorial' and abs(abs(l1 - l2) - 180.0) > 1e-9:
             pred(ctx, 'distance_equator', [a, f, om, l1, l2], 'distance_equator/' + name)
-        if k == 'same_meridian' and p1 != p2 and (f < 0.0099 or budget(ctx, 'f>0.0099', 60)):
+        if k == 'same_meridian' and p1 != p2 :
             pred(ctx, 'distance_meridian_arc', [a, f, om, l1, p1, p2], 'distance_meridian_arc/' + name)
         if f <= 0.0034 and k not in ('coincident', 'coincident_turn', 'coincident_pole'):
             pred(ctx, 'distance_great_circle', [a, f, om, l1, p1, l2, p2], 'distance_great_circle/' + k)
 
     # ---- parallax
-    for _ in range(ctx.n(8000, 200000) // nshards + 1):
+    for _ in range(size(ctx, 8000, 200000) // nshards + 1):
         dist = rng.choice([1e-3, 1e3, 0.0025695, 1.0, 10 ** rng.uniform(-3, 3), 10 ** rng.uniform(-3, 3)])
         h = gen_height(rng)
         obs = gen_lat(rng, hot)
@@ -520,9 +518,8 @@ def generate(ctx, shard=0, nshards=1):
         dec = gen_lat(rng)
         pc_tie(ra, dec, obs, dist, ha, h, 'parallax_correction')
         cap = polar_cap_flag(dec, dist, h)
-        if not cap or budget(ctx, 'polar_cap', 60):
-            pred(ctx, 'parallax_equatorial_bound', [ra, dec, obs, dist, ha, h, cap],
-                 'parallax_equatorial_bound' + ('/polar_cap' if cap else ''))
+        pred(ctx, 'parallax_equatorial_bound', [ra, dec, obs, dist, ha, h, cap],
+             'parallax_equatorial_bound' + ('/polar_cap' if cap else ''))
         lon = rng.choice([0.0, 90.0, 180.0, 270.0, rng.uniform(0, 360), rng.uniform(0, 360)])
         lat = rng.choice([0.0, rng.uniform(-90, 90), rng.uniform(-10, 10), rng.uniform(-1, 1) * 10 ** rng.uniform(-9, 0)])
         if abs(lat) > 89.9:          # the ecliptic pole: topocentric longitude is arbitrary, the formulas divide by n ~ 0
@@ -531,14 +528,12 @@ def generate(ctx, shard=0, nshards=1):
         obl = rng.uniform(22.0, 24.5)
         pe_tie(lon, lat, semi, obs, obl, sid, dist, h, 'parallax_ecliptical')
         fl = ecl_flag(lon, lat, obs, obl, sid, dist, h)
-        if fl and not budget(ctx, 'ecl%d' % fl, 60):
-            continue        # region of a listed finding: evaluated on the first inputs of the shard only (see budget)
         pred(ctx, 'parallax_ecliptical_bound', [lon, lat, semi, obs, obl, sid, dist, h, fl],
              'parallax_ecliptical_bound/' + ('other', 'south_front', 'lon_90_270', 'south_front+lon_90_270')[fl])
 
 
 def known_match(finding, failure):
-    """`ranges` as in the default matcher, plus `mask`: {index: bits} (the input value at index has one of the bits)."""
+    """`ranges` as in the default matcher, plus `mask`: {index: bits} and `dev_at_most_first_order_error`."""
     if finding.get('predicate') != failure.get('predicate'):
         return False
     inp = failure.get('input') or []
@@ -549,6 +544,12 @@ def known_match(finding, failure):
     for idx, bits in (finding.get('mask') or {}).items():
         i = int(idx)
         if i >= len(inp) or not isinstance(inp[i], int) or not (inp[i] & bits):
+            return False
+    if finding.get('dev_at_most_first_order_error'):
+        # the failure must be explained by the first-order error of Andoyer's formula, f^2/(1-f)^2 (+0.1 %)
+        det = failure.get('detail')
+        f = inp[1]
+        if not isinstance(det, dict) or 'dev' not in det or not (det['dev'] <= (f / (1.0 - f)) ** 2 * 1.001):
             return False
     return True
 
